@@ -876,6 +876,175 @@ fn read_split_visit_order(f: &syn::ImplItemFn) -> Result<bool, String> {
     Ok(true)
 }
 
+/// The split branch of `accumulate_get_record_found` (a version reached the quorum while the map holds several).
+/// `true`: the transaction union is sent only when EVERY version decoded as transactions: a `let mut <flag> = true`
+/// ahead of the loop over the versions, `Err(_) => { <flag> = false; }` in the loop's match on
+/// `get_transactions_from_record(..)`, and the merged record is built under `if <flag> && !<set>.is_empty()`;
+/// `false`: the shape before that (`Err(_) => { continue; }`, `if !<set>.is_empty()`): versions that are no transactions
+/// are silently left out; anything else is refused.
+fn read_acc_merge_needs_all_tx(blocks: &[&syn::Block]) -> Result<bool, String> {
+    use syn::visit::Visit;
+    let mut fl = ForLoops::default();
+    for b in blocks {
+        fl.visit_block(b);
+    }
+    let loops: Vec<&&syn::ExprForLoop> = fl.0.iter().filter(|l| calls_in_block(&l.body).paths.iter().any(|p| p.ends_with("get_transactions_from_record"))).collect();
+    let [lp] = loops.as_slice() else { return Err(format!("expected one loop over the versions calling get_transactions_from_record, found {}", loops.len())) };
+    if !toks(&*lp.expr).ends_with(".values()") {
+        return Err(format!("the split branch visits the versions through `{}`", toks(&*lp.expr)));
+    }
+    let body = stmts(&lp.body);
+    let [syn::Stmt::Expr(e, _)] = body.as_slice() else { return Err("the loop over the versions is not a single match".into()) };
+    let syn::Expr::Match(m) = peel(e) else { return Err("the loop over the versions is not a single match".into()) };
+    if call_named(&m.expr, "get_transactions_from_record").is_none() || m.arms.len() != 2 {
+        return Err("the loop over the versions does not match on get_transactions_from_record(..) with two arms".into());
+    }
+    let mut set_name = None;
+    let mut err_body = None;
+    for a in &m.arms {
+        let p = toks(&a.pat);
+        if p.starts_with("Ok(") {
+            let c = match &*a.body {
+                syn::Expr::Block(b) => collect(&[&b.block]),
+                _ => return Err("the Ok arm of the version loop is not a block".into()),
+            };
+            let ext: Vec<&&syn::ExprMethodCall> = c.method_calls.iter().filter(|mc| mc.method == "extend").collect();
+            let [x] = ext.as_slice() else { return Err("the Ok arm of the version loop does not `extend` one set".into()) };
+            set_name = ident_of(&x.receiver);
+        } else if p == "Err(_)" {
+            err_body = Some(toks(&*a.body));
+        } else {
+            return Err(format!("unexpected arm `{p}` in the version loop"));
+        }
+    }
+    let (Some(set), Some(err_body)) = (set_name, err_body) else { return Err("the version loop lacks an Ok(..)/Err(_) arm".into()) };
+    // the `if` guarding the merged record (its then-branch serialises the accumulated transactions)
+    let c = collect(blocks);
+    let guards: Vec<&&syn::ExprIf> = c
+        .ifs
+        .iter()
+        .filter(|i| toks(&*i.cond).contains(&format!("{set}.is_empty()")) && calls_in_block(&i.then_branch).paths.iter().any(|p| p.ends_with("try_serialize_record")))
+        .collect();
+    let [g] = guards.as_slice() else { return Err(format!("expected one `if` guarding the merged transaction record, found {}", guards.len())) };
+    let cond = toks(&*g.cond);
+    let nonempty = format!("!{set}.is_empty()");
+    let sends_split_otherwise = else_block(g).map(|b| toks(b).contains("SplitRecord")).unwrap_or(false);
+    if !sends_split_otherwise {
+        return Err("the else branch of the merged-transactions test does not answer SplitRecord".into());
+    }
+    let all = blocks.iter().map(|b| toks(*b)).collect::<Vec<_>>().join(" ");
+    if err_body == "{continue;}" || err_body == "continue" || err_body == "{}" {
+        return if cond == nonempty { Ok(false) } else { Err(format!("versions that are no transactions are skipped, but the merged record is guarded by `{cond}`")) };
+    }
+    // `{ <flag> = false; }`
+    let Some(flag) = err_body.strip_prefix('{').and_then(|t| t.strip_suffix("=false;}")).map(|s| s.to_string()) else {
+        return Err(format!("unexpected Err(_) arm `{err_body}` in the version loop"));
+    };
+    if flag.is_empty() || !flag.chars().all(|ch| ch.is_alphanumeric() || ch == '_') {
+        return Err(format!("unexpected Err(_) arm `{err_body}` in the version loop"));
+    }
+    let inits: Vec<&(String, &syn::Expr)> = c.locals.iter().filter(|(n, _)| *n == flag).collect();
+    let init_true = matches!(inits.as_slice(), [(_, i)] if toks(*i) == "true");
+    let assignments = all.matches(&format!("{flag}=")).count() - all.matches(&format!("{flag}==")).count();
+    if !init_true || assignments != 2 {
+        return Err(format!("`{flag}` is not `let mut {flag} = true` assigned `false` exactly once"));
+    }
+    if cond == format!("{flag}&&{nonempty}") || cond == format!("{nonempty}&&{flag}") {
+        Ok(true)
+    } else {
+        Err(format!("the merged record is guarded by `{cond}`, not by `{flag} && {nonempty}`"))
+    }
+}
+
+/// usages of the identifier `key` and of address-like method calls outside macros
+#[derive(Default)]
+struct KeyMentions(usize);
+impl<'a> syn::visit::Visit<'a> for KeyMentions {
+    fn visit_expr_path(&mut self, p: &'a syn::ExprPath) {
+        if p.path.is_ident("key") {
+            self.0 += 1;
+        }
+    }
+    fn visit_expr_method_call(&mut self, m: &'a syn::ExprMethodCall) {
+        if ["address", "to_record_key", "network_address", "owner"].contains(&m.method.to_string().as_str()) {
+            self.0 += 1;
+        }
+        syn::visit::visit_expr_method_call(self, m);
+    }
+    fn visit_macro(&mut self, _m: &'a syn::Macro) {}
+}
+
+/// the block of the `RecordKind::Register => { .. }` arm of `handle_split_record_error`
+struct RegArm<'a>(Vec<&'a syn::Block>);
+impl<'a> syn::visit::Visit<'a> for RegArm<'a> {
+    fn visit_arm(&mut self, a: &'a syn::Arm) {
+        if toks(&a.pat) == "RecordKind::Register" {
+            if let syn::Expr::Block(b) = &*a.body {
+                self.0.push(&b.block);
+            }
+        }
+        syn::visit::visit_arm(self, a);
+    }
+}
+
+/// `true`: the `Register` arm of `handle_split_record_error` skips (`continue`) a register whose own address does not map
+/// to the record key being read — `if NetworkAddress::from_register_address(*register.address()).to_record_key() != *key`
+/// after the deserialisation and ahead of `verify()` / `collected_registers.push`; `false`: the arm as it was (deserialise,
+/// `match register.verify() { Ok(_) => push, Err(_) => continue }`, the key mentioned nowhere); anything else is refused.
+fn read_split_reg_checks_key(f: &syn::ImplItemFn) -> Result<bool, String> {
+    use syn::visit::Visit;
+    if !f.sig.inputs.iter().any(|a| toks(a) == "key:&RecordKey") {
+        return Err("no `key: &RecordKey` parameter".into());
+    }
+    let mut v = RegArm(vec![]);
+    v.visit_block(&f.block);
+    let [arm] = v.0.as_slice() else { return Err(format!("{} `RecordKind::Register` arms with a block body", v.0.len())) };
+    let st = stmts(arm);
+    let texts: Vec<String> = st.iter().map(|s| toks(*s)).collect();
+    let ends_with_continue = |b: &syn::Block| matches!(stmts(b).last(), Some(syn::Stmt::Expr(syn::Expr::Continue(c), _)) if c.label.is_none());
+    let is_reg_key = |side: &str| side.contains("register") && side.ends_with(".to_record_key()") && side.contains("from_register_address(") && side.contains(".address()");
+    let is_req_key = |side: &str| side == "*key" || side == "key" || side == "&*key" || side == "key.clone()";
+    let mut key_ifs = vec![];
+    for (i, s) in st.iter().enumerate() {
+        if let syn::Stmt::Expr(syn::Expr::If(e), _) = s {
+            let c = toks(&*e.cond);
+            if !c.contains("to_record_key") {
+                continue;
+            }
+            let sides: Vec<&str> = c.split("!=").collect();
+            let ok = sides.len() == 2
+                && ((is_reg_key(sides[0]) && is_req_key(sides[1])) || (is_reg_key(sides[1]) && is_req_key(sides[0])))
+                && !c.contains("||")
+                && !c.contains("&&")
+                && e.else_branch.is_none()
+                && ends_with_continue(&e.then_branch)
+                && !toks(&e.then_branch).contains("collected_registers");
+            if !ok {
+                return Err(format!("register arm compares a record key in an unknown way: `{c}`"));
+            }
+            key_ifs.push(i);
+        }
+    }
+    let deser = texts.iter().position(|t| t.starts_with("letOk(register)=try_deserialize_record::<SignedRegister>(record)else{") && t.contains("continue"));
+    let Some(deser) = deser else { return Err("register arm does not deserialise `register` with let-else-continue".into()) };
+    let first_use = texts.iter().position(|t| t.contains("collected_registers.push(") || t.contains(".verify()"));
+    let Some(first_use) = first_use else { return Err("register arm never verifies / collects a register".into()) };
+    match key_ifs.as_slice() {
+        [i] if deser < *i && *i < first_use => Ok(true),
+        [] => {
+            let old_shape = texts.len() == 2 && deser == 0 && texts[1].starts_with("matchregister.verify(){Ok(_)=>{collected_registers.push(register);}Err(_)=>{");
+            let mut km = KeyMentions::default();
+            km.visit_block(arm);
+            if old_shape && km.0 == 0 {
+                Ok(false)
+            } else {
+                Err("register arm is neither the known shape without an address check nor one with a recognised `!= *key` check".into())
+            }
+        }
+        _ => Err("the record-key check of the register arm is misplaced or repeated".into()),
+    }
+}
+
 pub fn generate(repo: &PathBuf) -> Result<String, String> {
     let proto = parse_file(&repo.join("ant-protocol/src/lib.rs"))?;
     let cgs = const_value(&proto, "CLOSE_GROUP_SIZE")?;
@@ -947,6 +1116,7 @@ pub fn generate(repo: &PathBuf) -> Result<String, String> {
     let threshold_ge = read_threshold(&acc_blocks).map_err(|e| format!("accumulate_get_record_found: {e}"))?;
     read_single_version_branch(&acc_blocks).map_err(|e| format!("accumulate_get_record_found: {e}"))?;
     let found_checks_key = read_found_checks_key(acc, &acc_blocks).map_err(|e| format!("accumulate_get_record_found: {e}"))?;
+    let acc_merge_needs_all_tx = read_acc_merge_needs_all_tx(&acc_blocks).map_err(|e| format!("accumulate_get_record_found: {e}"))?;
     let sender_fn = impl_fn(&kadf, "SwarmDriver", None, "send_record_after_checking_target")?;
     let send_blocks = with_private_helpers(&kadf, &sender_fn.block, &[]);
     let target_checked = read_target_checked(&send_blocks).map_err(|e| format!("send_record_after_checking_target: {e}"))?;
@@ -966,6 +1136,7 @@ pub fn generate(repo: &PathBuf) -> Result<String, String> {
     // lib.rs Network::handle_split_record_error
     let hsre = impl_fn(&lib, "Network", None, "handle_split_record_error")?;
     let split_key_order = read_split_visit_order(hsre).map_err(|e| format!("handle_split_record_error: {e}"))?;
+    let split_reg_checks_key = read_split_reg_checks_key(hsre).map_err(|e| format!("handle_split_record_error: {e}"))?;
 
     // ant-protocol/src/storage/transaction.rs: the split branch of accumulate_get_record_found unions the versions'
     // transactions in a BTreeSet<Transaction> (uses Ord), handle_split_record_error in a HashSet (uses Eq + Hash)
@@ -1003,6 +1174,8 @@ pub fn generate(repo: &PathBuf) -> Result<String, String> {
     // the scratchpad arm of handle_split_record_error: read by the C15 rule (two-sided; see clientread.rs)
     let split_pad_checks_key = crate::clientread::net_split_checks_pad_key(repo)?;
     s.push_str(&format!("/-- `handle_split_record_error`, `Scratchpad` arm: a scratchpad whose own address does not map to the record key being read is skipped before counters are compared -/\ndef splitPadChecksKey : Bool := {}\n", lean_bool(split_pad_checks_key)));
+    s.push_str(&format!("/-- `handle_split_record_error`, `Register` arm: a register whose own address does not map to the record key being read is skipped before it is verified or collected (false: registers of any address are collected, the first one visited dictates the base) -/\ndef splitRegChecksKey : Bool := {}\n", lean_bool(split_reg_checks_key)));
+    s.push_str(&format!("/-- `accumulate_get_record_found`, split branch: the transaction union is answered only when every version held decoded as transactions; a split holding a version of another kind is answered `SplitRecord` with all versions (false: versions that are no transactions are silently left out of an `Ok(union)`) -/\ndef accMergeNeedsAllTx : Bool := {}\n", lean_bool(acc_merge_needs_all_tx)));
     s.push_str("end SafeNet.Gen.Quorum\n");
     Ok(s)
 }
